@@ -31,6 +31,12 @@ def unOf : String → Option UnOp
   | "-" => some .neg | "!" => some .not
   | _ => none
 
+/-- engine id of a (non-indexed) slot attribute of the positioning fragment -/
+def slatOf : String → Option Nat
+  | "advance.x" => some kslatAdvX | "advance.y" => some kslatAdvY
+  | "shift.x" => some kslatShiftX | "shift.y" => some kslatShiftY
+  | _ => none
+
 /-- The tree a source expression denotes for code attached to an item whose frame is `frame`.
     `gmap` maps the IR's glyph-attribute numbers to the ids used in the font. -/
 def toS (r : RuleIR) (gmap : Nat → Nat) (frame : Int) : Expr → Option SExpr
@@ -40,6 +46,10 @@ def toS (r : RuleIR) (gmap : Nat → Nat) (frame : Int) : Expr → Option SExpr
   | .glyphAttr slot a =>
     some (.glyphAttr (gmap a) (match slot with | some j => inIdx r (j - 1) - frame | none => 0))
   | .feat f => some (.feat f 0)
+  | .slotNamed slot name =>
+    (slatOf name).map fun a => .slotAttr a (match slot with | some j => inIdx r (j - 1) - frame | none => 0) 0
+  | .metric slot name =>
+    if name == "advancewidth" then some (.metric kgmetAdvWidth (match slot with | some j => inIdx r (j - 1) - frame | none => 0)) else none
   | .un op e => do let o ← unOf op; let e' ← toS r gmap frame e; pure (.un o e')
   | .bin op a b => do let o ← binOf op; let a' ← toS r gmap frame a; let b' ← toS r gmap frame b; pure (.bin o a' b')
   | .cond c a b => do let c' ← toS r gmap frame c; let a' ← toS r gmap frame a; let b' ← toS r gmap frame b; pure (.cond c' a' b')
@@ -116,23 +126,35 @@ def checkRule (ir : ProgIR) (gmap : Nat → Nat) (r : RuleIR) (action constraint
         match attrSets seg with
         | .error e => out := out ++ [s!"item {j + 1}: {e}"]
         | .ok sets =>
-          let userSets := sets.filter (·.attr == kslatUserDefn)
-          let want := it.attrs.filter (·.attr == "user")
-          if userSets.length != want.length then
-            out := out ++ [s!"item {j + 1}: the rule sets {want.length} user attributes, the action sets {userSets.length}"]
+          -- what the rule's assignments denote, in order: user attributes, advance / shift, and `kern.x = v`, which stands
+          -- for  shift.x = v; advance.x = advancewidth + v
+          let fr := frameOf r j
+          let mut want : List (String × Nat × Nat × Option SExpr) := []
+          for w in it.attrs do
+            if w.attr == "user" then want := want ++ [(w.op, kslatUserDefn, w.idx, toS r gmap fr w.val)]
+            else if w.attr == "kern.x" then
+              let v := toS r gmap fr w.val
+              want := want ++ [(w.op, kslatShiftX, 0, v), (w.op, kslatAdvX, 0, v.map fun e => .bin .add (.metric kgmetAdvWidth 0) e)]
+            else match slatOf w.attr with
+              | some a => want := want ++ [(w.op, a, 0, toS r gmap fr w.val)]
+              | none => pure ()
+          let known : List Nat := [kslatUserDefn, kslatAdvX, kslatAdvY, kslatShiftX, kslatShiftY]
+          let got := sets.filter fun g => known.contains g.attr
+          if got.length != want.length then
+            out := out ++ [s!"item {j + 1}: the rule makes {want.length} attribute assignments (user / advance / shift), the action makes {got.length}"]
           else
-            for (w, g) in want.zip userSets do
+            for ((wop, wattr, widx, wval), g) in want.zip got do
               nSets := nSets + 1
-              if w.idx != g.idx ∨ w.op != g.kind then
-                out := out ++ [s!"item {j + 1}: rule has user{w.idx + 1} {w.op} ..., action has user{g.idx + 1} {g.kind} ..."]
+              if wattr != g.attr ∨ widx != g.idx ∨ wop != g.kind then
+                out := out ++ [s!"item {j + 1}: rule assigns attribute {wattr}[{widx}] with {wop}, action assigns {g.attr}[{g.idx}] with {g.kind}"]
               else
-                match toS r gmap (frameOf r j) w.val with
+                match wval with
                 | none => out := out ++ [s!"IRERR item {j + 1}: expression uses an operator outside the modelled fragment"]
                 | some e =>
                   -- accepted: same meaning in every state (fold), or the code is exactly the compiler-folded form of the rule's
                   -- tree, which computes the rule's value wherever that is defined (foldC, evalS_foldC)
                   if fold e != fold g.val ∧ foldC e != g.val then
-                    out := out ++ [s!"item {j + 1}: user{w.idx + 1} {w.op} <expr>: the action computes a different value; {witness (fold e) (fold g.val)}; rule {repr (fold e)} font {repr (fold g.val)}"]
+                    out := out ++ [s!"item {j + 1}: attribute {wattr}[{widx}] {wop} <expr>: the action computes a different value; {witness (fold e) (fold g.val)}; rule {repr (fold e)} font {repr (fold g.val)}"]
   -- rule constraint: conjunction of the enclosing `if` conditions and of the item tests
   let consItems := (r.items.zipIdx.filter fun (it, _) => it.constraint.isSome)
   if consItems.isEmpty ∧ r.ifs.isEmpty then
